@@ -62,6 +62,11 @@ CHECKS = {
             "A generated file is opened read-only and a generated program of getters, setters, creations, removals, copies, property-group edits and helper calls (ui.json loading, monitoring export, fetch_active_workspace, path2workspace) is applied; after every call the SHA-256 of the file and the handle mode must be unchanged, and every call that changes a writable twin must have raised on the read-only side.",
             "An explicit open(mode='r+') by the user is outside the domain; the in-memory state after a refused write is not constrained.",
             "DESIGN.md 3/C10"),
+    "C11": ("closing", "exploration",
+            "fault injection at generated crash points inside with-blocks (Python exception between two operations) x closers; differential closed-access check against an open twin; handle accounting via h5py object counts",
+            "Generated tree programs are cut at a drawn crash point and the with-block is left by every kind of closer (normal, private exception, explicit close, fetch_active_workspace mode change, save_as, exception after close). The file must re-open, be structurally valid and equal the model of the completed operations, no HDF5 identifier may stay open, previously obtained entities must raise the closed-file error or return what the file holds, and open() must restore access.",
+            "Crash points are between API operations only (no process kill); one refused setter per case because a refused setter may legitimately have changed memory.",
+            "DESIGN.md 3/C11"),
 }
 
 NOT_APPLICABLE = {}
@@ -106,6 +111,8 @@ def main():
         "engines": [
             {"name": "tree", "path": "vp/engines/tree.py", "serves_properties": ["C01", "C02", "C05", "C06", "C09", "C12"],
              "kind_free_text": "Hypothesis strategy for operation programs + interpreter with reference model over groups/objects/data/property groups"},
+            {"name": "closing", "path": "vp/props/c11.py", "serves_properties": ["C11"],
+             "kind_free_text": "tree prefix + with-block + closers + closed-access differential"},
             {"name": "readonly", "path": "vp/props/c10.py", "serves_properties": ["C10"],
              "kind_free_text": "tree-built file + twin, call interpreter for read-only vs writable"},
             {"name": "copygrid", "path": "vp/props/c12.py", "serves_properties": ["C12"],
